@@ -176,6 +176,26 @@ func carriesPointers(v Val) bool {
 
 func (in *inst) dynamicCall(n *vnode, st *State, f Val, sig *types.Signature, args []Val, pos token.Pos) Val {
 	fv := in.fv
+	if fv.ct != nil && fv.ct.hasMode("pure-calls") {
+		// calls through function values are uninterpreted pure functions of the
+		// callee value and the arguments (the wrapped Go library function)
+		var vs []Val
+		for i := 0; i < sig.Results().Len(); i++ {
+			v, ok := fv.pureDyn(st, f, sig, args, i)
+			if !ok {
+				vs = nil
+				break
+			}
+			vs = append(vs, v)
+		}
+		if vs != nil || sig.Results().Len() == 0 {
+			fv.note("calls through function values modelled as pure uninterpreted functions of (callee, arguments)")
+			if sig.Results().Len() == 0 {
+				return Val{K: KUnit}
+			}
+			return resultVal(sig, vs)
+		}
+	}
 	fv.havocAll(st, "call through function value in "+funcKey(in.fn))
 	return resultVal(sig, in.unknownResults(st, sig, "dyn"))
 }
@@ -1599,4 +1619,31 @@ func smallEnough(f *ssa.Function) bool {
 		n += len(b.Instrs)
 	}
 	return n <= 120
+}
+
+// pureDyn: result i of calling function value f on args, as an uninterpreted
+// function. Slice arguments are passed by header (contents abstracted).
+func (fv *FnVC) pureDyn(st *State, f Val, sig *types.Signature, args []Val, i int) (Val, bool) {
+	t := sig.Results().At(i).Type()
+	k, w, srt := kindOf(t)
+	if k == KStruct || k == KTuple {
+		return Val{}, false
+	}
+	v := Val{K: k, W: w, Sort: srt, Typ: t}
+	sorts := []string{"Loc"}
+	terms := []string{f.T}
+	for _, a := range args {
+		if a.K == KStruct || a.K == KTuple {
+			return Val{}, false
+		}
+		sorts = append(sorts, a.sortOf())
+		terms = append(terms, a.T)
+	}
+	name := fmt.Sprintf("dyn_%s_%d", sanitize(canonType(sig)), i)
+	fv.declUF(name, sorts, v.sortOf())
+	v.T = fv.def("dyn", v.sortOf(), "("+name+" "+strings.Join(terms, " ")+")")
+	if st != nil {
+		fv.assumeWF(st, v)
+	}
+	return v, true
 }
